@@ -74,14 +74,49 @@ def run(c, quick, variant="asan"):
     for k, (what, tree) in enumerate(lmuts):
         for ws in (False, True):
             docs.append({"id": "l%d%s" % (k, "w" if ws else "n"), "what": "lsc: " + what, "ws": ws, "tree": tree})
-    path = os.path.join(c.run_dir, "xmldocs.ndjson")
+    return compare(c, docs, variant, "reader")
+
+
+def model_tree(m):
+    """a resolved DocGen model as an abstract XML tree (the element order libutap's DTD prescribes; what Mirror!XmlEvents writes)"""
+    n = xmltree.n
+    import docgen
+    kids = [n("declaration", text=docgen.PREAMBLE + "".join(d + "\n" for d in m["gdecl"]))]
+    for t in m["templs"]:
+        tk = [n("name", text=t["name"])]
+        if t["params"]:
+            tk.append(n("parameter", text=", ".join(t["params"])))
+        if t["ldecl"]:
+            tk.append(n("declaration", text="\n".join(t["ldecl"])))
+        for l in t["locs"]:
+            lk = ([n("name", text=l["name"])] if l["name"] else []) + ([n("label", {"kind": "invariant"}, text=l["inv"])] if l["inv"] else []) \
+                + ([n("label", {"kind": "exponentialrate"}, text=l["rate"])] if l["rate"] else []) + ([n(l["flag"])] if l["flag"] else [])
+            tk.append(n("location", {"id": l["id"]}, kids=lk, open=not lk))
+        for b in t["bps"]:
+            tk.append(n("branchpoint", {"id": b}, open=True))
+        if t["init"]:
+            tk.append(n("init", {"ref": t["init"]}))
+        for e in t["edges"]:
+            ek = [n("source", {"ref": e["src"]}), n("target", {"ref": e["dst"]})]
+            for kind, key in (("select", "sel"), ("guard", "guard"), ("synchronisation", "sync"), ("assignment", "asg"), ("probability", "prob")):
+                if e[key]:
+                    ek.append(n("label", {"kind": kind}, text=e[key]))
+            tk.append(n("transition", {"controllable": e["ctrl"]} if e["ctrl"] else {}, kids=ek))
+        kids.append(n("template", kids=tk))
+    kids.append(n("system", text=docgen.system_text(m)))
+    return n("nta", kids=kids)
+
+
+def compare(c, docs, variant, name):
+    """docs: [{id, what, ws, tree}] through XmlReader.tla (TLC) and through the real reader (record harness); event-by-event comparison"""
+    path = os.path.join(c.run_dir, "xmldocs_%s.ndjson" % name)
     vf.write_ndjson(path, [{"id": d["id"], "events": xmltree.events(d["tree"], d["ws"])} for d in docs])
     mc = vf.run_tlc("XmlReader", "XmlReader.cfg", c.run_dir, env={"XML_DOCS": path}, timeout=3000, xmx="16g", workers=1, keep_out=False)
-    c.add_tlc("XmlReader", mc, "the transcribed reader on the base document and every single structural mutation (with/without whitespace nodes)")
+    c.add_tlc("XmlReader(%s)" % name, mc, "the transcribed reader on %d documents" % len(docs))
     runs = {e["id"]: e for e in mc.emitted}
     jobs = [{"id": d["id"], "entry": "xml_buffer", "positions": True, "analysis": False, "walk": False,
              "text": '<?xml version="1.0" encoding="utf-8"?>' + ("\n" if d["ws"] else "") + xmltree.serialise(d["tree"], d["ws"]), "timeout": 30} for d in docs]
-    res = vf.run_jobs(jobs, c.run_dir, variant=variant, harness="record", name="reader")
+    res = vf.run_jobs(jobs, c.run_dir, variant=variant, harness="record", name=name)
     out = []
     for d, j in zip(docs, jobs):
         r = res[d["id"]]
